@@ -46,6 +46,9 @@ CORPUS = [
     ("relaxed_tasklist_matching", {"tasklist": True}, "- &lsqb;~] a"),
     # the witnesses of Props/C13.v C13_parse_refuted (whole parser model; same class C13-f)
     ("relaxed_tasklist_matching", {"tasklist": True}, "- &#91;~] a"), ("relaxed_autolinks", {"autolink": True}, "&#91;a&#64;b.co"),
+    # C13-g (Props/C13.v C13_second_round): a bar next to an apostrophe does not separate table cells under spoiler;
+    # the first has ONE bar (outside C13-c), the second is the model's witness (inside C13-c as well)
+    ("spoiler", {"table": True}, "a\n:-\nc'|d"), ("spoiler", {"table": True}, "a'|b\n-|-\n"),
 ]
 
 
@@ -197,6 +200,9 @@ def classify(F, doc, base, vh):
         return "description_item_tilde"
     if F == "spoiler" and doc.count("|") >= 2:
         return "spoiler_single_bar"
+    # C13-g: scanners.re table_spoiler is a two-byte CLASS {apostrophe, bar}: one bar next to an apostrophe is enough
+    if F == "spoiler" and ("'|" in doc or "|'" in doc):
+        return "spoiler_quote_bar"
     if F == "footnotes" and RE_ESC_CARET.search(doc):
         return "footnote_escaped_caret"
     if F in ("autolink", "relaxed_autolinks") and RE_REF_AT.search(doc):
@@ -453,11 +459,12 @@ def main(tier):
         c.cov["samples"].append({"feature": F, "doc": d, "base": docgen.opts_token(b)})
     c.cov["input_distribution"] = {"exhaustive_documents": n_exh, "bases_exhaustive": list(BASES), "grammar_documents_per_feature": nper, "corpus": ncorpus,
                                    "grammar_constructs": docgen.feature_counts("\n".join(d for _, d, _ in cases[:3000]))}
-    c.cov["partial_clauses"] = ["C13_full_statement (byte-identical HTML under the specification's free_of, trigger STRINGS) is not proved; it is what the search evaluates on the implementation. Proved on the whole parser model (Props/C13.v C13_parse_inert, hypothesis free_of_heads = none of the first bytes of the trigger strings): strikethrough, subscript, superscript, underline, math_dollars, math_code, both wikilinks switches, smart (equality of the two runs, C13_parse_inert clause 1), alerts, multiline_block_quotes, table (whenever the run with the feature succeeds, the run without gives the same tree), description_lists only with the tilde excluded as well; tagfilter / header_ids only at the parser (it has no such switch); HTML corollary for a renderer record held fixed (C13_html_inert)",
-                                "refuted on the whole parser model (C13_parse_refuted): greentext (C13-a), description_lists with the colon only (C13-b), autolink, tasklist, relaxed_tasklist_matching, relaxed_autolinks (C13-f)",
-                                "open on the whole parser model: footnotes (the footnote pass on a tree without references is not shown to be the identity: no `no FootnoteReference` invariant of the inline parser), spoiler (block phase: table.rs row reads the switch) and front_matter_delimiter (block phase); the block theorems are in the okle form (equality when the run with the feature panics is not proved); tagfilter / header_ids / relaxed_autolinks are read by the HTML renderer itself: not covered by the HTML corollary",
+    c.cov["partial_clauses"] = ["C13_full_statement (byte-identical HTML under the specification's free_of, trigger STRINGS) is not proved; it is what the search evaluates on the implementation. Proved on the whole parser model (Props/C13.v C13_parse_inert + C13_second_round, hypothesis free_of_heads = none of the first bytes of the trigger strings) for 17 of 23 features: strikethrough, subscript, superscript, underline, math_dollars, math_code, both wikilinks switches, smart, spoiler (equality of the two runs), alerts, multiline_block_quotes, table, footnotes, front_matter_delimiter (whenever the run with the feature succeeds, the run without gives the same tree; front matter also with equality for any delimiter when the splitter / the line-based specification of C20 finds no front matter), description_lists only with the tilde excluded as well; tagfilter / header_ids at the parser (it has no such switch); HTML corollary for a renderer record held fixed (C13_html_inert, C13_second_round part 5)",
+                                "refuted on the whole parser model (C13_parse_refuted, C13_second_round part 4): greentext (C13-a), description_lists with the colon only (C13-b), autolink, tasklist, relaxed_tasklist_matching, relaxed_autolinks (C13-f); none open. Under the documented trigger STRING (two bars) spoiler is refuted on the model as well: single bars (C13-c) and a bar next to an apostrophe in a table row (C13-g, scanners.re table_spoiler is a two-byte class)",
+                                "the block theorems for footnotes / alerts / multiline_block_quotes / table / description_lists are in the okle form (equality when the run with the feature panics is not proved); for spoiler and front_matter_delimiter the block phase is proved EQUAL",
+                                "the HTML renderer's own record: o_footnotes and the two wikilinks fields are never read (html_blind3); o_tagfilter is read at HtmlBlock / HtmlInline nodes only, o_header_ids at Heading nodes only, o_relaxed_autolinks at a Link whose parent is a Link only (C13-e) -- C13_second_round part 5; that a trigger-free DOCUMENT yields a tree without such nodes is not proved (tagfilter, header_ids, relaxed_autolinks stay with the search for the renderer's switch)",
                                 "find_special_char inertness under free_of fails at the scan level for autolink (w), spoiler (single bar) and smart (single hyphen / full stop): C13_find_special_free_refuted_*; the text nodes are merged later (not modelled)",
-                                "known classes C13-a (greentext switches lazy continuation off), C13-b (description item introduced by a tilde), C13-c (spoiler pairs single bars), C13-d (escaped caret still opens a footnote reference), C13-e (relaxed_autolinks drops the start tag of a link nested directly in a link) are excluded from the search verdict"]
+                                "known classes C13-a (greentext switches lazy continuation off), C13-b (description item introduced by a tilde), C13-c (spoiler pairs single bars), C13-d (escaped caret still opens a footnote reference), C13-e (relaxed_autolinks drops the start tag of a link nested directly in a link), C13-f (post-pass reads decoded text), C13-g (a bar next to an apostrophe is cell content under spoiler) are excluded from the search verdict"]
     c.assumptions = ["Gen/Special.v and Gen/AuditOptions.v are regenerated from src/parser/*.rs and src/html.rs on every run; the find_special_char loop is compared verbatim with the loop Model/Special.v transcribes",
                      "no hook exposes Subject's tables or find_special_char of the compiled library: the model of the tables is tied by the translator only, not by a run-time correspondence",
                      "the trigger strings of Spec/Triggers.v are read from the options' documentation; header_ids is exercised with the empty prefix and front_matter_delimiter with ---",
